@@ -12,6 +12,10 @@
           is the explicit form of every accepted case.
   TRACE   (code -> spec) seeded random families (other names, defaults, which subclass adds / retypes / requires what,
           deeper owners) with random source sequences up to length 4 are executed the same way.
+  ROUND 4 histories of parses in ONE process over a family that changes with time (late modules, packages with name shadowing
+          and re-exports): emitted by TLC with the import state before every parse, replayed in fresh processes; random
+          histories recorded with the observed import state; Optional[List[C]] / List[Optional[C]] / Optional[Dict[str, C]];
+          sub-config files; the same argument below a sub-command.
   All recorded observations (accept/reject, normalised spec, constructor log, type of the result, short-vs-explicit
   pairs) are validated by TLC against Trace_Classes (Ref clauses: verdict, Alg clause: drift).
 """
@@ -59,7 +63,8 @@ def fix(x):
 def type_text(t) -> str:
     k = t["k"]
     return {"int": "int", "str": "str", "cls": t["c"], "opt": f"Optional[{t['c']}]", "list": f"List[{t['c']}]",
-            "dict": f"Dict[str, {t['c']}]", "union": f"Union[{t['c']}, {t['c2']}]"}[k]
+            "dict": f"Dict[str, {t['c']}]", "union": f"Union[{t['c']}, {t['c2']}]",
+            "optlist": f"Optional[List[{t['c']}]]", "listopt": f"List[Optional[{t['c']}]]", "optdict": f"Optional[Dict[str, {t['c']}]]"}[k]
 
 
 def lit(v) -> str:
@@ -83,7 +88,8 @@ def family_source(fam) -> str:
     src = ["from abc import ABC, abstractmethod", "from typing import Dict, List, Optional, Union", "", "LOG = []", "", "",
            "def _rec(obj, name, kw):", "    LOG.append((name, kw))", "    obj._verif_idx = len(LOG)", "", ""]
     done: list = []
-    todo = dict(fam["cls"])
+    extkeys = {b["c"] for b in fam.get("ext", []) if b["def"]}
+    todo = {k: v for k, v in fam["cls"].items() if k not in extkeys}       # classes of the layout's other modules: ext_sources
     while todo:
         progressed = False
         for name in sorted(todo):
@@ -120,20 +126,69 @@ def family_source(fam) -> str:
     return "\n".join(src) + "\n"
 
 
+def ext_sources(fam, modname) -> dict:
+    """round 4: the other modules / packages of the family's layout (fam["ext"]): relative file path -> source.  A unit whose
+    bindings name a sub-module (P.v2) is a package <modname>_P with __init__.py (imports .v2, defines the classes bound at P that
+    are defined there, re-exports the others from .v2) and v2.py; otherwise a module <modname>_<unit>.py.  The classes log under
+    their KEY and carry it as _verif_key, so an observation tells which class object was named / built."""
+    out: dict = {}
+    ext = fam.get("ext", [])
+
+    def class_src(b):
+        c = fam["cls"][b["c"]]
+        base = f"_M.{c['parent']}" if c["parent"] else ""
+        kwa = ", **kwargs" if c["kw"] else ""
+        names = ", ".join(f"{p['n']}={p['n']}" for p in c["params"]) + (", **kwargs" if c["kw"] else "")
+        return [f"class {b['n']}({base}):" if base else f"class {b['n']}:", f"    _verif_key = {b['c']!r}", "",
+                f"    def __init__(self{params_text(c['params'])}{kwa}):", f"        _M._rec(self, {b['c']!r}, dict({names.lstrip(', ')}))", "",
+                "    def run(self):", "        return None", "", ""]
+
+    head = ["from typing import Dict, List, Optional, Union", f"import {modname} as _M", "", ""]
+    for u in sorted({b["u"] for b in ext}):
+        bs = [b for b in ext if b["u"] == u]
+        if any("." in b["m"] for b in bs):
+            init = head + ["from . import v2", "", ""]
+            sub = list(head)
+            for b in bs:
+                if b["m"] == u and b["def"]:
+                    init += class_src(b)
+                elif b["m"] == u:
+                    init += [f"from .v2 import {b['n']}", ""]
+                elif b["def"]:
+                    sub += class_src(b)
+            out[f"{modname}_{u}/__init__.py"] = "\n".join(init) + "\n"
+            out[f"{modname}_{u}/v2.py"] = "\n".join(sub) + "\n"
+        else:
+            src = list(head)
+            for b in bs:
+                src += class_src(b)
+            out[f"{modname}_{u}.py"] = "\n".join(src) + "\n"
+    return out
+
+
 _MODS: dict = {}
+_EXTKEY: dict = {}       # module name of a family -> {ext class key: its defining import path (module label, name)}
 
 
 def load_family(fam, scratch):
     src = family_source(fam)
-    h = hashlib.sha1(src.encode()).hexdigest()[:16]
+    h = hashlib.sha1((src + json.dumps(fam.get("ext", []), sort_keys=True)).encode()).hexdigest()[:16]
     name = f"verif_fam_{h}"
     if name not in _MODS:
         path = os.path.join(scratch, name + ".py")
         if not os.path.exists(path):
+            for rel, text in ext_sources(fam, name).items():        # the other modules of the layout: written, NOT imported
+                full = os.path.join(scratch, rel)
+                os.makedirs(os.path.dirname(full), exist_ok=True)
+                tmp = full + f".{os.getpid()}"
+                with open(tmp, "w") as f:
+                    f.write(text)
+                os.replace(tmp, full)
             tmp = path + f".{os.getpid()}"
             with open(tmp, "w") as f:
                 f.write(src)
             os.replace(tmp, path)
+        _EXTKEY[name] = {b["c"]: (b["m"], b["n"]) for b in fam.get("ext", []) if b["def"]}
         if scratch not in sys.path:
             sys.path.insert(0, scratch)
         importlib.invalidate_caches()
@@ -142,8 +197,39 @@ def load_family(fam, scratch):
 
 
 # ---------------------------------------------------------------- gamma: sources -> argv
+_FILES = {"dir": None, "n": 0, "made": []}
+
+
+def file_for(v, modname):
+    """a sub-config file whose content is the value v["v"]; returns its (absolute) path"""
+    content = json.dumps(to_json(v["v"], modname))
+    _FILES["n"] += 1
+    path = os.path.join(_FILES["dir"], f"sub_{os.getpid()}_{_FILES['n']}.json")
+    with open(path, "w") as f:
+        f.write(content)
+    _FILES["made"].append((path, content))
+    return path
+
+
+def files_in(v, top=True):
+    """(is there a file value, is there one that is not the direct value of the option --x)"""
+    k = v.get("k")
+    if k == "file":
+        a, b = files_in(v["v"], False)
+        return True, (not top) or a or b
+    if k == "dict":
+        r = [files_in(x, False) for x in v["d"].values()]
+    elif k == "list":
+        r = [files_in(x, False) for x in v["l"]]
+    else:
+        return False, False
+    return any(a for a, _ in r), any(b for _, b in r)
+
+
 def to_json(v, modname):
     k = v["k"]
+    if k == "file":
+        return file_for(v, modname)
     if k == "ref":
         return ref_text(v, modname)
     if k == "str":
@@ -164,11 +250,37 @@ def to_json(v, modname):
 def ref_text(v, modname):
     if v["m"] == "":
         return v["n"]
-    return (modname if v["m"] == "M" else NOMOD) + "." + v["n"]
+    if v["m"] == "M":
+        if v["n"] in _EXTKEY.get(modname, {}):          # an internal reference to a class of another module: its defining path
+            m, n = _EXTKEY[modname][v["n"]]
+            return f"{modname}_{m}.{n}"
+        return modname + "." + v["n"]
+    if v["m"] == "X":
+        return NOMOD + "." + v["n"]
+    return f"{modname}_{v['m']}.{v['n']}"               # a module / package of the family's layout
+
+
+def cp_key(cp, modname):
+    """the class a normalised class_path NAMES: the plain name for the family's module; for the other modules of the layout the
+    path is imported (importlib, not jsonargparse) and the object found there says which class it is (_verif_key)"""
+    if not isinstance(cp, str):
+        return "?" + str(cp)
+    if cp.startswith(modname + "."):
+        return cp[len(modname) + 1:]
+    if cp.startswith(modname + "_") and "." in cp:
+        mpath, _, attr = cp.rpartition(".")
+        try:
+            obj = getattr(importlib.import_module(mpath), attr)
+            return getattr(obj, "_verif_key", "?" + cp)
+        except Exception:
+            return "?" + cp
+    return "?" + cp
 
 
 def to_text(v, modname) -> str:
     k = v["k"]
+    if k == "file":
+        return file_for(v, modname)
     if k == "ref":
         return ref_text(v, modname)
     if k == "str":
@@ -180,7 +292,7 @@ def to_text(v, modname) -> str:
     return json.dumps(to_json(v, modname))
 
 
-def render(items, modname, flavour, scratch, tag):
+def render(items, modname, flavour, scratch, tag, section=None):
     argv = []
     nfile = 0
     for it in items:
@@ -190,7 +302,7 @@ def render(items, modname, flavour, scratch, tag):
             key = "--x." + ".".join(it["p"])
             argv += [key, to_text(it["v"], modname)] if flavour & 2 else [key + "=" + to_text(it["v"], modname)]
         elif it["k"] == "cfg":
-            text = json.dumps({"x": to_json(it["v"], modname)})
+            text = json.dumps({"x": to_json(it["v"], modname)} if section is None else {section: {"x": to_json(it["v"], modname)}})
             if flavour & 4:
                 nfile += 1
                 path = os.path.join(scratch, f"cfg_{tag}_{nfile}.json")
@@ -224,12 +336,15 @@ def alpha(v, modname):
     if isinstance(v, Namespace):
         v = dict(vars(v))
     if isinstance(v, dict):
+        v = {n: x for n, x in v.items() if n != "__path__"}      # where a sub-config file was read from: not part of the configuration
         if "class_path" in v:
             cp = v["class_path"]
-            c = cp[len(modname) + 1:] if isinstance(cp, str) and cp.startswith(modname + ".") else "?" + str(cp)
+            c = cp_key(cp, modname)
             ia = v.get("init_args") or {}
             if isinstance(ia, Namespace):
                 ia = dict(vars(ia))
+            if isinstance(ia, dict):
+                ia = {n: x for n, x in ia.items() if n != "__path__"}
             dk = v.get("dict_kwargs") or {}
             extra = set(v) - {"class_path", "init_args", "dict_kwargs"}
             if extra or not isinstance(ia, dict) or not isinstance(dk, dict):
@@ -276,12 +391,30 @@ def make_default(dflt, mod, flavour):
     return lazy_instance(obj, **ia), f"default=lazy_instance({cref['n']}, **{ia!r})"
 
 
-def execute(fam, T, items, flavour, scratch, dflt=None, chan="argv"):
+def execute(fam, T, items, flavour, scratch, dflt=None, chan="argv", host="top"):
     mod = load_family(fam, scratch)
     modname = mod.__name__
+    _FILES["dir"], _FILES["made"] = scratch, []
     has_default = dflt is not None and dflt.get("k") != "none"
     first_by_channel = chan != "argv" and len(items) > 0
-    argv = render(items[1:] if first_by_channel else items, modname, flavour, scratch, f"{os.getpid()}")
+    fl_any = fl_nested = False
+    for it in items:
+        a, b = files_in(it["v"], it["k"] != "dot")
+        fl_any, fl_nested = fl_any or a, fl_nested or b
+    if fl_nested:
+        flavour |= 1            # only add_subclass_arguments(sub_configs=True) hands sub_configs down to the class parsers
+    if host == "sub":
+        if chan != "argv":
+            raise ValueError("a sub-command host is only generated for the command-line channel")
+        # the config source at the head of the sequence may be a section of a --cfg of the ROOT parser (before the sub-command's name)
+        # ONE section at most: several root-level sections for the same sub-command are merged by the ROOT parser, which has no typed
+        # action for fit.x (the second replaces / leaf-merges the first untyped: `"Sub2"` then `{"init_args": ...}` ends as the declared
+        # class) -- how config sources combine below sub-commands is the subject of C04 / C17, not of this property
+        nroot = 1 if (flavour & 16) and items and items[0]["k"] == "cfg" else 0
+        argv = (render(items[:nroot], modname, flavour, scratch, f"{os.getpid()}r", section="fit") + ["fit"]
+                + render(items[nroot:], modname, flavour, scratch, f"{os.getpid()}"))
+    else:
+        argv = render(items[1:] if first_by_channel else items, modname, flavour, scratch, f"{os.getpid()}")
     pkw = {}
     how = "parse_args"
     text = ""
@@ -307,10 +440,24 @@ def execute(fam, T, items, flavour, scratch, dflt=None, chan="argv"):
     dtxt = ""
     if has_default:
         akw["default"], dtxt = make_default(dflt, mod, flavour)
-    if flavour & 1:
+    if fl_any:
+        dtxt = (dtxt + ", " if dtxt else "") + ("" if flavour & 1 else "enable_path=True")
+    if flavour & 1:     # add_subclass_arguments always adds its argument with sub_configs=True (_signatures.py:513-515)
         p.add_subclass_arguments(getattr(mod, T), "x", **akw)
     else:
+        if fl_any:
+            akw["enable_path"] = True
         p.add_argument("--x", type=getattr(mod, T), **akw)
+    sub = p
+    if host == "sub":       # the parser with --x is the parser of the sub-command `fit` of a root parser
+        p = ArgumentParser(exit_on_error=False)
+        p.add_argument("--cfg", action=ActionConfigFile)
+        oth = ArgumentParser(exit_on_error=False)
+        oth.add_argument("--y", type=int, default=0)
+        sc = p.add_subcommands()
+        sc.add_subcommand("fit", sub)
+        sc.add_subcommand("other", oth)
+    xkey = "fit.x" if host == "sub" else "x"
     mod.LOG.clear()
     obs = {"ok": False, "v": REJ, "inst": "skip", "log": [], "root": 0, "rtype": ""}
     err = ""
@@ -320,6 +467,9 @@ def execute(fam, T, items, flavour, scratch, dflt=None, chan="argv"):
             "parse_args+environ": f"os.environ['APP_X'] = {text!r}; p.parse_args({argv!r})", "parse_string": f"p.parse_string({text!r})"}[how]
     py = (f"# module {modname}:\n{family_source(fam)}\n# p = ArgumentParser(exit_on_error=False{''.join(', %s=%r' % kv for kv in pkw.items())}); "
           f"p.add_argument('--cfg', action=ActionConfigFile); p.{decl}  (T = {T})\n"
+          + ("# p is the parser of the sub-command `fit`: root = ArgumentParser(exit_on_error=False); root.add_argument('--cfg', action=ActionConfigFile); "
+             "sc = root.add_subcommands(); sc.add_subcommand('fit', p); sc.add_subcommand('other', <parser with --y>); parse / instantiate with root, look at cfg.fit.x\n" if host == "sub" else "")
+          + "".join(f"# file {pa}: {co}\n" for pa, co in _FILES["made"])
           + (f"# default config file content: {json.dumps({'x': to_json(items[0]['v'], modname)})}\n" if first_by_channel and chan == "dcf" else "")
           + f"# cfg = {call}; init = p.instantiate_classes(cfg)")
     try:
@@ -350,7 +500,7 @@ def execute(fam, T, items, flavour, scratch, dflt=None, chan="argv"):
         err += f"constructors ran during parsing: {mod.LOG!r}"[:200]
         obs["ok"], obs["v"] = True, {"k": "other", "s": "constructed-at-parse"}
         return obs, py, err
-    x = cfg.get("x")
+    x = cfg.get(xkey)
     obs["ok"] = True
     obs["v"] = alpha(x, modname)
     if obs["v"]["k"] != "spec":
@@ -358,15 +508,108 @@ def execute(fam, T, items, flavour, scratch, dflt=None, chan="argv"):
     try:
         with redirect_stderr(buf), redirect_stdout(buf):
             init = p.instantiate_classes(cfg)
-        res = init.get("x")
+        res = init.get(xkey)
         obs["inst"] = "ok"
         obs["log"] = [{"c": n, "kw": {k: alpha_obj(v) for k, v in kw.items()}} for n, kw in mod.LOG]
         obs["root"] = getattr(res, "_verif_idx", 0)
-        obs["rtype"] = type(res).__name__
+        obs["rtype"] = getattr(type(res), "_verif_key", type(res).__name__)
     except Exception as ex:
         obs["inst"] = "raise"
         err += "instantiate_classes: " + type(ex).__name__ + ": " + str(ex)[:300]
     return obs, py, err
+
+
+def units_loaded(fam, modname):
+    """which late units of the family's layout are imported in THIS process right now (observed, from sys.modules)"""
+    return [u for u in fam.get("late", []) if f"{modname}_{u}" in sys.modules]
+
+
+def execute_history(fam, steps, flavour, scratch):
+    """round 4: the parses of ONE process, in order, interleaved with imports of late units of the layout.  Runs in a process of its
+    own (the pool gives every history a fresh child).  Per parse step: (observed vis before the parse, obs, py, err)."""
+    mod = load_family(fam, scratch)
+    modname = mod.__name__
+    out = []
+    trail = []
+    for k, st in enumerate(steps):
+        if st["ev"] == "import":
+            importlib.import_module(f"{modname}_{st['m']}")
+            trail.append(f"import {modname}_{st['m']}")
+            out.append(None)
+            continue
+        vis = units_loaded(fam, modname)
+        obs, py, err = execute(fam, st["T"], st["items"], flavour, scratch)
+        call = py.rsplit("\n", 1)[-1]
+        py = py + "".join(f"\n# file {rel}:\n{text}" for rel, text in ext_sources(fam, modname).items()) + \
+            "\n# earlier in the same process:\n# " + "\n# ".join(trail or ["(nothing)"]) + "\n" + call
+        trail.append(f"(T = {st['T']}) " + call.lstrip("# "))
+        out.append((vis, obs, py, err))
+    return out
+
+
+def _work_history(job):
+    idx, fi, steps, flavour = job
+    try:
+        return idx, execute_history(_G["fams"][fi], steps, flavour, _G["scratch"])
+    except Exception as ex:
+        import traceback
+
+        return idx, {"machinery": type(ex).__name__ + ": " + str(ex)[:300] + traceback.format_exc()[-800:]}
+
+
+def run_histories(jobs, fams, scratch, procs=16):
+    _G["fams"], _G["scratch"] = fams, scratch
+    ctx = mp.get_context("fork")
+    with ctx.Pool(procs, maxtasksperchild=1) as pool:         # a fresh process per history: imports must not leak
+        res = pool.map(_work_history, jobs, chunksize=1)
+    res.sort(key=lambda r: r[0])
+    return res
+
+
+def rnd_history(rnd, fam):
+    """a random history over the layout of the family: imports of late units and parses that name the classes of the layout by
+    bare name, by every bound path, by the module path, with and without init_args"""
+    binds = fam["ext"]
+    names = sorted({b["n"] for b in binds} | {"Sub1", "Sub3"})
+
+    def cref():
+        q = rnd.random()
+        if q < 0.45:
+            b = rnd.choice(binds)
+            return {"k": "ref", "m": b["m"], "n": b["n"]}
+        if q < 0.85:
+            return {"k": "ref", "m": "", "n": rnd.choice(names)}
+        return {"k": "ref", "m": "M", "n": rnd.choice(["Sub1", "Sub3", "Base"])}
+
+    def val():
+        ref = cref()
+        if rnd.random() < 0.5:
+            return ref
+        ia = rnd.choice([{"a": I_(rnd.randint(40, 60))}, {"b": S_("k")}, {"e": S_("w")}, {"q": I_(3)}])
+        return {"k": "dict", "d": {"class_path": ref, "init_args": {"k": "dict", "d": ia}}}
+
+    steps = []
+    for _ in range(rnd.randint(3, 7)):
+        if rnd.random() < 0.2:
+            steps.append({"ev": "import", "T": "", "items": [], "m": rnd.choice(fam["late"])})
+            continue
+        T = "Base" if rnd.random() < 0.8 else "Outer"
+        items = []
+        for _j in range(1 if rnd.random() < 0.7 else 2):
+            v = val()
+            # within ONE parse a source that names a path of the layout imports its unit, which changes what a bare name means for
+            # the LATER sources of the same parse; the family of a case is the family when the parse starts (see the assumptions):
+            # after such a source no bare name follows in the same parse
+            while items and any('"m": "' + b["m"] + '"' in json.dumps(it["v"]) for it in items for b in binds) and '"m": ""' in json.dumps(v):
+                v = val()
+            if T == "Outer":
+                v = {"k": "dict", "d": {"inner": v}}
+            items.append({"k": "whole" if rnd.random() < 0.75 else "cfg", "v": v})
+        if T == "Base" and rnd.random() < 0.2:
+            n = rnd.choice(["a", "b", "e"])
+            items.append({"k": "dot", "p": [n], "v": I_(rnd.randint(61, 69)) if n == "a" else S_("w")})
+        steps.append({"ev": "parse", "T": T, "items": items, "m": ""})
+    return steps
 
 
 def split_log(log, root):
@@ -603,9 +846,9 @@ def run_pairs(jobs, fams, scratch, procs=16):
 
 
 def _work(job):
-    idx, fi, T, items, flavour, dflt, chan = job
+    idx, fi, T, items, flavour, dflt, chan, host = job
     try:
-        obs, py, err = execute(_G["fams"][fi], T, items, flavour, _G["scratch"], dflt, chan)
+        obs, py, err = execute(_G["fams"][fi], T, items, flavour, _G["scratch"], dflt, chan, host)
         return idx, obs, py, err
     except Exception as ex:
         import traceback
@@ -633,6 +876,8 @@ def flavour_of(idx, salt):
         fl |= 4      # config through a file
     if (r >> 13) % 2 == 0:
         fl |= 8      # a default spec as a dict instead of lazy_instance
+    if (r >> 17) % 2 == 0:
+        fl |= 16     # below a sub-command: leading config sources as sections of a --cfg of the root parser
     return fl
 
 
@@ -686,12 +931,12 @@ def rnd_family(rnd, salt):
     cls[absn] = {"parent": "", "abs": True, "kw": False, "params": [P_("z", T_("int"), I_(9))] if rnd.random() < 0.5 else []}
     cls[conc] = {"parent": absn, "abs": False, "kw": False, "params": [P_("z", T_("int"), I_(0))]}
     owners = []
-    kinds = rnd.sample(["cls", "opt", "list", "dict", "union"], rnd.randint(2, 4))
+    kinds = rnd.sample(["cls", "opt", "list", "dict", "union", "optlist", "listopt", "optdict"], rnd.randint(2, 5))
     for i, k in enumerate(kinds):
         name = f"Own{i + 1}{salt}"
         tgt = rnd.choice([base, base, absn]) if k in ("cls", "opt") else base
         t = T_(k, tgt, other if k == "union" else "")
-        ps = [P_("inner" if k in ("cls", "opt", "union") else "inners", t, {"k": "null"} if k == "opt" else None)]
+        ps = [P_("inner" if k in ("cls", "opt", "union") else "inners", t, {"k": "null"} if k in ("opt", "optlist", "optdict") else None)]
         if rnd.random() < 0.5:
             ps.append(P_("n", T_("int"), I_(0)))
         cls[name] = {"parent": "", "abs": False, "kw": False, "params": ps}
@@ -707,7 +952,7 @@ def rnd_family(rnd, salt):
     cls[top] = {"parent": "", "abs": False, "kw": False, "params": [P_("own", T_("cls", owners[0])), P_("m", T_("int"), I_(1))]}
     fn = {"make" + salt: {"ret": rnd.choice([base] + subs), "params": [P_(pn[0], T_("int"), I_(7))]},
           "mk_other" + salt: {"ret": other, "params": []}}
-    return {"cls": cls, "fn": fn, "other": ["notclass"]}
+    return {"cls": cls, "fn": fn, "other": ["notclass"], "ext": [], "late": [], "vis": []}
 
 
 def rnd_items(rnd, fam, T):
@@ -737,11 +982,13 @@ def rnd_items(rnd, fam, T):
         k = t["k"]
         if k in ("int", "str"):
             return leaf(t, rnd.random() < 0.06)
-        if k == "opt" and rnd.random() < 0.25:
+        if k in ("opt", "optlist", "optdict") and rnd.random() < 0.25:
             return {"k": "null"}
-        if k == "list":
+        if k in ("list", "optlist"):
             return {"k": "list", "l": [spec_for(t["c"], depth + 1, False) for _ in range(rnd.randint(0, 3))]}
-        if k == "dict":
+        if k == "listopt":
+            return {"k": "list", "l": [{"k": "null"} if rnd.random() < 0.3 else spec_for(t["c"], depth + 1, False) for _ in range(rnd.randint(0, 3))]}
+        if k in ("dict", "optdict"):
             return {"k": "dict", "d": {f"k{j}": spec_for(t["c"], depth + 1, False) for j in range(rnd.randint(0, 2))}}
         tgt = t["c2"] if k == "union" and rnd.random() < 0.4 else t["c"]
         return spec_for(tgt, depth + 1)
@@ -823,6 +1070,51 @@ def rnd_items(rnd, fam, T):
     return items
 
 
+def rnd_files(rnd, fam, T, items):
+    """round 4: some of the values that stand where an OPTION's value is checked become sub-config files: the whole value of a
+    whole / cfg source, the value of a dotted option, the value of a class-typed (C / Optional[C] / Union) parameter inside the
+    init_args of a dict with class_path.  Never elements of lists / dicts, never leaf values, never null."""
+    cls = fam["cls"]
+
+    def classy(v):      # a file holds a mapping (a bare class name in a file is not a documented notation)
+        return v["k"] == "dict" and len(v["d"]) > 0
+
+    def inside(v, c, depth):
+        """v: a dict with class_path naming class c (as far as the generator knows): wrap class-typed parameter values"""
+        if v["k"] != "dict" or "class_path" not in v["d"] or "init_args" not in v["d"] or v["d"]["init_args"]["k"] != "dict":
+            return v
+        cp = v["d"]["class_path"]
+        c = cp.get("n") if cp["k"] == "ref" else None
+        if c not in cls:
+            return v
+        types = {p["n"]: p["t"] for p in cls[c]["params"]}
+        ia = {}
+        for n, x in v["d"]["init_args"]["d"].items():
+            t = types.get(n)
+            if t and t["k"] in ("cls", "opt", "union") and classy(x):
+                x = inside(x, None, depth + 1)
+                if rnd.random() < 0.5:
+                    x = {"k": "file", "v": x}
+            ia[n] = x
+        d = dict(v["d"])
+        d["init_args"] = {"k": "dict", "d": ia}
+        return {"k": "dict", "d": d}
+
+    out = []
+    for it in items:
+        v = it["v"]
+        if it["k"] in ("whole", "cfg"):
+            v = inside(v, None, 0)
+            if classy(v) and rnd.random() < 0.4:
+                v = {"k": "file", "v": v}
+        elif classy(v) and ("class_path" in v["d"] or "init_args" in v["d"]):     # (a parameters-only dict could be the value of a Dict parameter)
+            v = inside(v, None, 1)
+            if rnd.random() < 0.5:
+                v = {"k": "file", "v": v}
+        out.append({**it, "v": v})
+    return out
+
+
 def rnd_default_case(rnd, fam, T, items):
     """the argument gets a DEFAULT that is a spec (a concrete subclass of T with some valid init_args) and the first source
     arrives through a random channel.  After a default config file only sources that do not designate a class follow;
@@ -888,8 +1180,11 @@ def shape_key(items) -> str:
     def one(it):
         v = it["v"]
         kind = v["k"]
-        if kind == "dict":
-            kind = "dict(" + "+".join(sorted(k for k in v["d"] if k in ("class_path", "init_args", "dict_kwargs")) or ["params"]) + ")"
+        if kind == "file":
+            v = v["v"]
+            kind = "file:" + v["k"]
+        if v["k"] == "dict":
+            kind = kind + "(" + "+".join(sorted(k for k in v["d"] if k in ("class_path", "init_args", "dict_kwargs")) or ["params"]) + ")"
         return it["k"] + (":" + ".".join("I" if s == "init_args" else "K" if s == "dict_kwargs" else "p" for s in it["p"]) if it["k"] == "dot" else "") + ":" + kind
     return "/".join(one(it) for it in items)[:100]
 
@@ -905,7 +1200,11 @@ def main(argv):
         "dict_kwargs are not generated inside the elements of a List/Dict-of-class parameter: what a second assignment of a container inherits from the first is not pinned by the documentation",
         "a default that is a spec: the property allows both readings of whether the signature defaults of the default's class count as configured init_args (Trace_Classes compares with both); after a default config file only sources that do not designate a class are generated, the environment / parse_string channels carry exactly one source",
         "abstract classes are never designated by an explicit path (the property speaks about instantiable classes); the exception class of a rejection beyond ArgumentError is not compared",
-        "alpha strips the generated module's name from class_path; the empty init_args / dict_kwargs of a spec are the empty mapping",
+        "alpha strips the generated module's name from class_path; the empty init_args / dict_kwargs of a spec are the empty mapping; a class_path of another module / package of the family's layout is imported (importlib) and the object found there says which class it names; __path__ (where a sub-config file was read from) is not part of the configuration",
+        "round 4 -- histories: every history runs in a process of its own; the late units imported before a parse are what TLC computed from the earlier steps (emitted histories; checked against sys.modules) or what is observed in sys.modules (random histories); whether a normalised class_path is shortened (R.Quick for R.v2.Quick) is not compared, only which class object it imports to",
+        "round 4 -- the family of a case is the family when the parse STARTS: inside one parse no bare class name follows a source that names a path of a late unit (the import triggered by the earlier source would change what the name means half-way; not modelled, not generated)",
+        "round 4 -- sub-config files hold a mapping (class spec, init_args only, parameters only) and stand where an option's value is checked: the argument, a --cfg entry, a class-typed (C / Optional[C] / Union) parameter, a dotted option; absolute paths; sub_configs / enable_path is switched on exactly for the cases that use a file",
+        "round 4 -- below a sub-command only the command-line channel is generated (default config files / environment with sub-commands are the subject of C04 / C17)",
     ]
     scratch = str(common.scratch("c14"))
     try:
@@ -923,9 +1222,19 @@ def main(argv):
         if len(famline) != 1 or not cases:
             machinery_failure(PID, f"MC_Classes emitted {len(famline)} families and {len(cases)} cases")
         fams = [fix(famline[0]["fam"])]
+        for k in ("ext", "late", "vis"):
+            fams[0].setdefault(k, [])
+        histline = [p for p in mc.printed if isinstance(p, dict) and "hists" in p]
+        if len(histline) != 1:
+            machinery_failure(PID, f"MC_Classes emitted {len(histline)} history tables")
+        hists = fix(histline[0]["hists"])
         cases.sort(key=lambda c: json.dumps(c["id"]))
         if len({json.dumps(c["id"]) for c in cases}) != len(cases):
             machinery_failure(PID, "duplicate case ids in the emission")
+        # round 4: the cases <<"H", h, k, 0>> are the parses of history h (one process); they are replayed history by history below
+        hcases = {(c["id"][1], c["id"][2]): c for c in cases if c["id"][0] == "H"}
+        cases = [c for c in cases if c["id"][0] != "H"]
+        rep.extra["mc_history_parses"] = len(hcases)
         rep.extra["mc_cases"] = len(cases)
         rep.extra["mc_cases_accepted"] = sum(1 for c in cases if c["alg"]["ok"])
         rep.extra["mc_cases_with_deviation"] = sum(1 for c in cases if c["ref"] != c["code"])
@@ -946,6 +1255,14 @@ def main(argv):
         for i, c in enumerate(replay_cases):
             if i in pick and c["explicit"] and c["ref"] == c["code"] and c["alg"]["ok"]:
                 work.append({"f": 0, "T": c["T"], "items": c["explicit"], "origin": "explicit", "pair": i, "mc": None, "dflt": NONE, "chan": "argv"})
+        # round 4: the same argument below a sub-command (`fit --x=...`, `fit --cfg=...`, or the section "fit" of a --cfg of the root):
+        # a seeded stride of the emitted command-line cases (quick: 1/8 and half of the cases that involve a sub-config file; thorough: 1/4 and all of them), validated by TLC like the others
+        stride = 8 if tier == "quick" else 4
+        off = rnd.randrange(stride)
+        for i, c in enumerate(replay_cases):
+            if c["chan"] == "argv" and c["dflt"].get("k") == "none" and (tier == "quick" or len(c["items"]) < 3) and (
+                    i % stride == off or ('"file"' in json.dumps(c["items"]) and (tier != "quick" or i % 2 == off % 2))):
+                work.append({"f": 0, "T": c["T"], "items": c["items"], "origin": "replay-sub", "pair": -1, "mc": None, "dflt": NONE, "chan": "argv", "host": "sub"})
         nfam = 40 if tier == "quick" else 300
         per_fam = 40 if tier == "quick" else 80
         for fi in range(nfam):
@@ -958,18 +1275,57 @@ def main(argv):
                 dflt, chan = NONE, "argv"
                 if not fam["cls"][T]["abs"] and rnd.random() < 0.3:
                     dflt, chan, items = rnd_default_case(rnd, fam, T, items)
-                work.append({"f": len(fams) - 1, "T": T, "items": items, "origin": "random", "pair": -1, "mc": None, "dflt": dflt, "chan": chan})
-        jobs = [(i, w["f"], w["T"], w["items"], flavour_of(i, common.seed()), w["dflt"], w["chan"]) for i, w in enumerate(work)]
+                host = "top"
+                if chan == "argv" and rnd.random() < 0.25:
+                    host = "sub"
+                if chan == "argv" and rnd.random() < 0.2:
+                    items = rnd_files(rnd, fam, T, items)
+                work.append({"f": len(fams) - 1, "T": T, "items": items, "origin": "random", "pair": -1, "mc": None, "dflt": dflt, "chan": chan, "host": host})
+        for w in work:
+            w.setdefault("host", "top")
+            w.setdefault("vis", [])
+        jobs = [(i, w["f"], w["T"], w["items"], flavour_of(i, common.seed()), w["dflt"], w["chan"], w["host"]) for i, w in enumerate(work)]
         res = run_all(jobs, fams, scratch)
         for (i, obs, py, err), w in zip(res, work):
             if "machinery" in obs:
                 machinery_failure(PID, f"gamma/alpha failed on work item {i} ({w['origin']}): {obs['machinery']}\n{json.dumps(w['items'])[:1500]}")
             w["obs"], w["py"], w["err"], w["flavour"] = obs, py, err, jobs[i][4]
         cases = replay_cases
+        # ---- round 4: HISTORIES (one fresh process each): the emitted ones (spec -> code: TLC said which late units are imported
+        #      before every parse and what the parse gives) and seeded random ones over the same layout (code -> spec: the imported
+        #      units are OBSERVED in sys.modules before the parse); every parse is validated by TLC with the family at that time
+        hjobs, hmeta = [], []
+        for h, steps in enumerate(hists, start=1):
+            hjobs.append((len(hjobs), 0, steps, flavour_of(h, common.seed() + 13) & 7))
+            hmeta.append(("history", h, steps))
+        for h in range(40 if tier == "quick" else 600):
+            steps = rnd_history(rnd, fams[0])
+            hjobs.append((len(hjobs), 0, steps, flavour_of(h, common.seed() + 17) & 7))
+            hmeta.append(("random-history", h, steps))
+        hres = run_histories(hjobs, fams, scratch)
+        n_hist_parses = 0
+        for (j, out), (origin, h, steps) in zip(hres, hmeta):
+            if isinstance(out, dict):
+                machinery_failure(PID, f"history {origin} {h} failed: {out['machinery']}")
+            for k, (st, r) in enumerate(zip(steps, out), start=1):
+                if r is None:
+                    continue
+                vis, obs, py, err = r
+                if origin == "history":
+                    c = hcases.get((h, k))
+                    if c is None or c["items"] != st["items"]:
+                        machinery_failure(PID, f"history {h} step {k}: no matching emitted case")
+                    if sorted(c["vis"]) != sorted(vis):
+                        machinery_failure(PID, f"history {h} step {k}: TLC expects the units {sorted(c['vis'])} to be imported, the process has {sorted(vis)}")
+                n_hist_parses += 1
+                work.append({"f": 0, "T": st["T"], "items": st["items"], "origin": origin, "pair": -1, "mc": None, "dflt": NONE, "chan": "argv", "host": "top",
+                             "vis": sorted(vis), "obs": obs, "py": py, "err": err, "flavour": hjobs[j][3]})
+        rep.extra["histories"] = len(hjobs)
+        rep.extra["history_parses"] = n_hist_parses
         # ---- two class-typed arguments in ONE parser, --x / --x_ema: the sources of two emitted cases of declared class Base
         #      arrive pairwise in the same --cfg (merged by merge_config); each result must be what its own case says
         def cfg_only(c):
-            return (c["T"] == "Base" and c["chan"] == "argv" and c["dflt"].get("k") == "none" and 1 <= len(c["items"]) <= 2
+            return ('"file"' not in json.dumps(c["items"]) and c["T"] == "Base" and c["chan"] == "argv" and c["dflt"].get("k") == "none" and 1 <= len(c["items"]) <= 2
                     and all(it["k"] in ("whole", "cfg") for it in c["items"]))
 
         def as_cfg(items):
@@ -994,7 +1350,7 @@ def main(argv):
         for (j, oa, ob, py, err), (ca, cb) in zip(pres, pmeta):
             if "machinery" in oa:
                 machinery_failure(PID, f"gamma/alpha failed on paired run {j}: {oa['machinery']}")
-            base = {"f": 0, "T": "Base", "pair": -1, "mc": None, "dflt": NONE, "chan": "argv", "py": py, "err": err, "flavour": pjobs[j][5]}
+            base = {"f": 0, "T": "Base", "pair": -1, "mc": None, "dflt": NONE, "chan": "argv", "host": "top", "vis": [], "py": py, "err": err, "flavour": pjobs[j][5]}
             work.append({**base, "items": as_cfg(cb["items"]), "origin": "paired:x_ema", "obs": ob})
             if cb["alg"]["ok"] and cb["ref"] == cb["code"]:      # --x can only be judged when its sibling is expected to parse
                 work.append({**base, "items": as_cfg(ca["items"]), "origin": "paired:x", "obs": oa})
@@ -1021,7 +1377,7 @@ def main(argv):
         for (j, obsd, py, err), keys in zip(dres, dmeta):
             if "machinery" in obsd:
                 machinery_failure(PID, f"gamma/alpha failed on dict-argument run {j}: {obsd['machinery']}")
-            base = {"f": 0, "T": "Base", "pair": -1, "mc": None, "dflt": NONE, "chan": "argv", "py": py, "err": err, "flavour": djobs[j][4]}
+            base = {"f": 0, "T": "Base", "pair": -1, "mc": None, "dflt": NONE, "chan": "argv", "host": "top", "vis": [], "py": py, "err": err, "flavour": djobs[j][4]}
             cb = keys[1][1]
             for k, c in keys:
                 if k == "k2" or (cb["alg"]["ok"] and cb["ref"] == cb["code"]):     # companions are judged when the key under test is expected to parse
@@ -1031,6 +1387,9 @@ def main(argv):
         rep.extra["explicit_form_replays"] = sum(1 for w in work if w["origin"] == "explicit")
         rep.extra["random_families"] = nfam
         rep.extra["random_cases"] = sum(1 for w in work if w["origin"] == "random")
+        rep.extra["replays_below_a_subcommand"] = sum(1 for w in work if w["origin"] == "replay-sub")
+        rep.extra["random_cases_below_a_subcommand"] = sum(1 for w in work if w["origin"] == "random" and w["host"] == "sub")
+        rep.extra["cases_with_sub_config_files"] = sum(1 for w in work if '"file"' in json.dumps(w["items"]))
 
         # ---- cross-check with what MC printed (must coincide with TLC's "alg" clause below)
         def parsed(o):
@@ -1074,7 +1433,7 @@ def main(argv):
         for ci, part in enumerate(chunks):
             pos = {wi: j + 1 for j, wi in enumerate(part)}
             data = {"fams": fams, "cases": [{"f": work[wi]["f"] + 1, "T": work[wi]["T"], "items": work[wi]["items"], "obs": work[wi]["obs"],
-                                             "dflt": work[wi]["dflt"], "chan": work[wi]["chan"],
+                                             "dflt": work[wi]["dflt"], "chan": work[wi]["chan"], "host": work[wi]["host"], "vis": work[wi]["vis"],
                                              "pair": pos[work[wi]["pair"]] if work[wi]["pair"] >= 0 else 0} for wi in part]}
             f = os.path.join(scratch, f"trace_{ci}.json")
             with open(f, "w") as fh:
@@ -1096,12 +1455,12 @@ def main(argv):
             clauses = rejects.get(wi, set())
             obs = w["obs"]
             if obs["ok"] and obs["inst"] == "ok" and not (clauses & {"ref", "ref-log", "ref-pair"}):
-                rep.note_nontrivial(hashlib.sha1(json.dumps([w["f"], w["T"], w["items"], w["dflt"], w["chan"]], sort_keys=True).encode()).hexdigest())
+                rep.note_nontrivial(hashlib.sha1(json.dumps([w["f"], w["T"], w["items"], w["dflt"], w["chan"], w["host"], w["vis"]], sort_keys=True).encode()).hexdigest())
             if "alg" in clauses:
                 n_alg += 1
             if not clauses:
                 continue
-            info = {"family": w["f"], "T": w["T"], "items": w["items"], "default": w["dflt"], "channel": w["chan"], "observed": obs, "error_text": w["err"], "failed_clauses": sorted(clauses),
+            info = {"family": w["f"], "T": w["T"], "items": w["items"], "default": w["dflt"], "channel": w["chan"], "host": w["host"], "imported_late_units": w["vis"], "observed": obs, "error_text": w["err"], "failed_clauses": sorted(clauses),
                     "origin": w["origin"], "flavour": w["flavour"], "python": w["py"]}
             if wi in explain:
                 info["spec_predicts"] = explain[wi]
@@ -1119,6 +1478,12 @@ def main(argv):
                     verdict = True
                 elif cl == "ref-dev-emptydict":
                     rep.violation("dict-empty-previous:short-form-rejected", "a key of a Dict[str, C] value in short form is rejected when the previous value was the empty dict", info)
+                    verdict = True
+                elif cl == "ref-dev-listlen":
+                    rep.violation("list-other-length-previous:short-form-rejected", "an element of a List[C] value in short form is rejected when the previous list had another length", info)
+                    verdict = True
+                elif cl == "ref-dev-nonetext":
+                    rep.violation("dotted-two-levels:null-becomes-None-text", "a dotted option two or more levels down whose value is / contains null is rejected (the null arrives as the text 'None')", info)
                     verdict = True
                 elif cl == "ref-dev-both":
                     rep.violation("dict_kwargs:stale+class-without-var-keyword", "stale dict_kwargs on a class without **kwargs", info)
